@@ -60,6 +60,31 @@ CHECKS = {
   level="model_checking", ref="5 C11",
   text="AccessList.tla (file states good/bad-line-at-k/missing, reload = parse fully then swap, gate, clean) is checked for GateSound, ReloadAtomic, CleanEnforces in modes off/allow/deny; every transition is replayed with concrete files on the real update_access_list and each tracker's storage; TLC validates reload results, gate decisions and stored state.",
   note="API level: the socket workers' 3-line gate is emulated by the executors. " + TB),
+ "C03": dict(
+  technique="TLC-checked source/canonicalisation model + black-box trace validation of running trackers under all socket configurations; TLC-enumerated proxy header layouts",
+  level="model_checking", ref="5 C03",
+  text="UdpServer.tla keys stored peers by Canon(source) and never reads the request's ip field (StoredKeysAreSources, FamilyOfSender checked by TLC); running UDP trackers (mio and io_uring) under IPv4-only, IPv6-only, dual-stack, both, and plain+dual-stack sockets, and HTTP trackers (direct, dual-stack listener, behind a reverse proxy with TLC-enumerated header layouts) are driven from several loopback addresses with hostile in-request address fields; TLC validates every returned peer address, family and count against the reference keyed by the network source.",
+  note="Only loopback addresses exist in the sandbox. WebTorrent part: see evidence coverage key ws. " + TB),
+ "C13": dict(
+  technique="TLA+ reference codec (Bep15.tla) evaluated by TLC over the structural input space + byte-for-byte trace validation",
+  level="model_checking", ref="5 C13",
+  text="Bep15.tla is a reference BEP 15 codec and parser decision table over byte sequences; TLC checks its internal laws (parse(encode(x)) = x, classification of every truncation length, action, event, magic, port, payload length, maxScrape x hash count) with negative controls, prints the cases, and validates the real write_bytes/parse_bytes results byte for byte and field by field.",
+  note="TLC is used as an evaluator of a transcribed function with rich case analysis (little behaviour to explore); connect requests longer than 16 bytes and sendable/unsendable classification are not judged. " + TB),
+ "C14": dict(
+  technique="TLA+ reference codec (HttpCodec.tla: url-decoding state machine, query parser, independent bencode writer/reader) evaluated by TLC + trace validation",
+  level="model_checking", ref="5 C14",
+  text="HttpCodec.tla defines UrlDecode20, query parsing with the statement's domain predicates, canonical bencode writers and a validating bencode reader; TLC checks the codec's laws per case (with an unsorted-dictionary negative control), prints the shapes, and validates the real Request::write/parse_bytes, parse_http_get_path and Response::write_bytes/parse_bytes results byte for byte.",
+  note="Ill-formed query strings (stray = or &, duplicated keys, code points > 255) are outside the judged domain; counts >= 2^63 and key parameters longer than the parser's limit are not generated. " + TB),
+ "C15": dict(
+  technique="TLA+ reference codec (WsCodec.tla: identifier rule, JSON trees, message shapes) evaluated by TLC + trace validation",
+  level="model_checking", ref="5 C15",
+  text="WsCodec.tla states the 20-byte identifier rule over code points, UTF-8 well-formedness, JSON trees and the message shapes; TLC checks the laws (with prefix-acceptance and wrap-around negative controls), prints the identifier decision table and shapes, and validates the real to_ws_message/from_ws_message results for text and binary frames.",
+  note="Binary frames that are not well-formed UTF-8 must be rejected (reading of 'identical for text and binary frames'); protocol spelling is not judged, only identifier encoding and round-trip equality. " + TB),
+ "C16": dict(
+  technique="TLC model checking of HttpServer.tla (framing, routing, scrape merge) + linearizability trace validation of running trackers",
+  level="model_checking", ref="5 C16",
+  text="HttpServer.tla models request assembly across segments, routing by hash to swarm workers, scrape fan-out/merge, the re-used Content-Length digit field and keep-alive; TLC checks WellFramed, InOrder, WorkersInvisible, Isolation for 1-3 swarm workers and rejects the per-worker-truncation and stale-digit variants; running trackers (socket x swarm workers, keep-alive on/off) are driven by concurrent connections with requests split at byte offsets, and TLC infers a linearization that explains every reply.",
+  note="Pipelining and TLS are outside the statement/exercise; multi-hash scrapes are issued at quiescence. " + TB),
  "C20": dict(
   technique="TLA+ model checking of tally/export invariants (TLC) + trace validation + crash-point enumeration against Export.tla",
   level="model_checking", ref="5 C20",
